@@ -34,6 +34,8 @@ fn gen(rng: &mut Rng, tier: Tier) -> Value {
   };
   let mut cfg = GenCfg::hostile(depth);
   cfg.wild_maps = false;
+  // "all source trees": also replacements whose end lies before their start
+  cfg.reversed_ops = true;
   let spec = gen_case(rng, &cfg);
   json!({ "spec": spec, "fault_seed": rng.next_u64() % 1_000_000, "all_k": tier == Tier::Thorough })
 }
@@ -106,6 +108,11 @@ fn check(case: &Value, obs: &mut Obs) {
   let mb = spec.model_bytes();
   let mt = spec.model_text();
   let all_utf8 = spec.is_all_utf8();
+  // the byte / text model is defined for start <= end only
+  let modelled = !spec.has_reversed_op();
+  if !modelled {
+    obs.class("reversed_replacement_range(views compared with each other only)");
+  }
   if !all_utf8 {
     obs.class("invalid_utf8_leaf");
   }
@@ -129,10 +136,10 @@ fn check(case: &Value, obs: &mut Obs) {
       obs.fail("buffer_vs_source_utf8", format!("{who}: all leaves UTF-8 but buffer() {:?} != source() {:?}", String::from_utf8_lossy(buffer), source));
     }
     // against the spec model (exact bytes given; lossy decoding; concatenation in order)
-    if *buffer != mb {
+    if modelled && *buffer != mb {
       obs.fail("buffer_vs_model", format!("{who}: buffer() {:?} != model bytes {:?}", buffer, mb));
     }
-    if *source != mt {
+    if modelled && *source != mt {
       obs.fail("source_vs_model", format!("{who}: source() {source:?} != model text {mt:?}"));
     }
   }
